@@ -5,6 +5,13 @@ CHECKS = {
  'C01': dict(engine='P', technique='bounded-exhaustive program enumeration + exhaustive native execution (all branch valuations) vs real taint analysis',
              text='Every typed step chain within the (k,d) bound is enumerated, run natively under every valuation of its opaque branches with token-carrying data, and every natively observed (source,sink) pair must be reported by the real taint.Analyze under each soundness-preserving configuration; a covering subset also goes through the argot binary.',
              note='small-scope bound (k,d,H); reflect-based native oracle is one-sided; Go toolchain trusted as reference semantics', ref='§6 C01'),
+
+ 'C02': dict(engine='P', technique='bounded-exhaustive guard-shape enumeration + exhaustive native execution over all validator outcomes vs real taint analysis',
+             text='33 sanitizer/validator guard shapes after every S->S step chain; the native Validate stub answers with the next valuation bit, so the DFS over valuations is exhaustive over validator outcomes; any unvalidated, unsanitised token that reaches a sink natively must be reported.',
+             note='small-scope bound; validated-token set is generous (a token validated once counts as validated everywhere), so the oracle can only be weaker, never wrong', ref='§6 C02'),
+ 'C05': dict(engine='P', technique='exhaustive option-vector enumeration (single deviations + pairs) over generated and repository programs, differential oracle',
+             text='Every generated program of the bound and the repository testdata programs (tool load path, own configs) are analysed under every option vector of the tier; the reported pair set must equal the default vector\'s (max-alarms=k: subset, <=k, non-empty iff).',
+             note='differential only; pf=nomatch/pf=std vectors are applied to generated programs only (on std-importing programs they make the tool summarise the standard library)', ref='§6 C05'),
 }
 NA = []
 def main():
